@@ -98,7 +98,7 @@ func genC01(repo string) (string, error) {
 		return "", err
 	}
 	if err := o.skeleton(sv, "Server", "campaignLeader", "skel_campaignLeader",
-		goast.SkelOpt{Calls: set("CampaignLeader", "KeepLeader", "ResetLeader", "Initialize", "ResetAllocatorGroup", "EnableLeader", "IsLeader", "Rebase")}); err != nil {
+		goast.SkelOpt{Calls: set("CampaignLeader", "KeepLeader", "ResetLeader", "Initialize", "ResetAllocatorGroup", "EnableLeader", "IsLeader", "Rebase", "RefreshClusterDCLocations", "ClusterDCLocationChecker")}); err != nil {
 		return "", err
 	}
 	return o.sb.String(), nil
